@@ -1,4 +1,5 @@
-/-! Scratch (design phase): C18 — interface.py `fromFunction` over the CPython code-object layout. -/
+/-! C18 model (core Lean only): interface.py `fromFunction` / `fromMethod` / `getSignatureInfo` / `getSignatureString`
+over the CPython code-object layout.  Default values are opaque ids; `reprOf` renders them. -/
 namespace ZI.Method
 structure Code where
   argcount : Nat            -- co_argcount: positional-only + positional-or-keyword
@@ -6,93 +7,61 @@ structure Code where
   varnames : List String    -- co_varnames
   hasVarargs : Bool         -- co_flags & CO_VARARGS
   hasKwargs : Bool          -- co_flags & CO_VARKEYWORDS
-  ndefaults : Nat           -- len(__defaults__)
+  defaults : List Nat       -- func.__defaults__ (ids of the default values)
 deriving Repr
 
 structure Info where
   positional : List String
   required : List String
-  optional : List String    -- names that received a default (the dict's keys, in order)
+  optional : List (String × Nat)   -- the `optional` dict: name ↦ default, insertion order
   varargs : Option String
   kwargs : Option String
 deriving Repr, DecidableEq
 
-/-- `fromFunction(func, imlevel=…)`. `fixed = false` is the pinned commit (the `*args` index ignores keyword-only names). -/
-def fromFunction (fixed : Bool) (c : Code) (imlevel : Nat) : Info :=
+/-- which historical version of `fromFunction` -/
+inductive Version
+  | pinned        -- as at the pinned commit: the `*args` index ignores keyword-only names, imlevel is not clamped
+  | kwonlyFixed   -- after f2168a3 (keyword-only offset)
+  | current       -- after 612b202 (a `self` absorbed by `*args` is not dropped from the names)
+deriving DecidableEq, Repr
+
+/-- `fromFunction(func, imlevel=…)` -/
+def fromFunctionV (ver : Version) (c : Code) (imlevel0 : Nat) : Info :=
+  let imlevel := if ver = .current then min imlevel0 c.argcount else imlevel0
   let na := c.argcount - imlevel
   let names := c.varnames.drop imlevel
-  let nd := min c.ndefaults na            -- `if nr < 0: defaults = defaults[-nr:]; nr = 0`
+  let nd := min c.defaults.length na            -- `if nr < 0: defaults = defaults[-nr:]; nr = 0`
+  let defs := c.defaults.drop (c.defaults.length - nd)
   let nr := na - nd
-  let argno := if fixed then na + c.kwonly else na
+  let argno := if ver = .pinned then na else na + c.kwonly
   { positional := names.take na
     required := names.take nr
-    optional := (names.drop nr).take nd    -- zip(names[nr:], defaults)
+    optional := List.zip (names.drop nr) defs
     varargs := if c.hasVarargs then names[argno]? else none
     kwargs := if c.hasKwargs then names[argno + (if c.hasVarargs then 1 else 0)]? else none }
 
-/-- CPython's layout of `co_varnames` -/
-structure Layout (c : Code) (pos kw : List String) (star dstar : Option String) (locals : List String) : Prop where
-  names : c.varnames = pos ++ kw ++ star.toList ++ dstar.toList ++ locals
-  npos : pos.length = c.argcount
+def fromFunction (c : Code) (imlevel : Nat) : Info := fromFunctionV .current c imlevel
+/-- `fromMethod(meth)`: the function behind the bound method, one leading name dropped -/
+def fromMethod (c : Code) : Info := fromFunction c 1
+
+/-- one positional name as `getSignatureString` renders it: `name=repr(default)` if it is a key of `optional` -/
+def renderName (reprOf : Nat → String) (opt : List (String × Nat)) (v : String) : String :=
+  match opt.find? (·.1 == v) with
+  | some p => v ++ "=" ++ reprOf p.2
+  | none => v
+
+/-- `Method.getSignatureString` -/
+def sigString (reprOf : Nat → String) (i : Info) : String :=
+  let parts := i.positional.map (renderName reprOf i.optional)
+  let parts := parts ++ (match i.varargs with | some a => if a == "" then [] else ["*" ++ a] | none => [])
+  let parts := parts ++ (match i.kwargs with | some k => if k == "" then [] else ["**" ++ k] | none => [])
+  "(" ++ ", ".intercalate parts ++ ")"
+
+/-- CPython's layout of `co_varnames` for a function whose first `lead` parameters are dropped (0, or 1 for `self`) -/
+structure Layout (c : Code) (lead pos kw : List String) (star dstar : Option String) (locals : List String) : Prop where
+  names : c.varnames = lead ++ pos ++ kw ++ star.toList ++ dstar.toList ++ locals
+  npos : lead.length + pos.length = c.argcount
   nkw : kw.length = c.kwonly
   fstar : c.hasVarargs = star.isSome
   fdstar : c.hasKwargs = dstar.isSome
-  ndef : c.ndefaults ≤ c.argcount
-
-/-- **C18_info** for plain functions (`imlevel = 0`) after the repair -/
-theorem fromFunction_spec (c : Code) (pos kw : List String) (star dstar : Option String) (locals : List String)
-    (h : Layout c pos kw star dstar locals) :
-    fromFunction true c 0 =
-      { positional := pos
-        required := pos.take (c.argcount - c.ndefaults)
-        optional := pos.drop (c.argcount - c.ndefaults)
-        varargs := star
-        kwargs := dstar } := by
-  obtain ⟨hn, hp, hk, hs, hd, hnd⟩ := h
-  have hmin : min c.ndefaults c.argcount = c.ndefaults := Nat.min_eq_left hnd
-  simp only [fromFunction, Nat.sub_zero, List.drop_zero, hmin, if_true]
-  rw [hn]
-  have e1 : (pos ++ kw ++ star.toList ++ dstar.toList ++ locals) = pos ++ (kw ++ star.toList ++ dstar.toList ++ locals) := by
-    simp [List.append_assoc]
-  congr 1
-  · rw [e1, List.take_append_of_le_length (by omega), ← hp, List.take_length]
-  · rw [e1, List.take_append_of_le_length (by omega)]
-  · rw [e1, List.drop_append_of_le_length (by omega)]
-    rw [List.take_append_of_le_length (by simp; omega)]
-    rw [List.take_of_length_le (by simp; omega)]
-  · -- varargs
-    cases star with
-    | none => simp [hs]
-    | some a =>
-      simp only [hs, Option.isSome_some, if_true]
-      have : (pos ++ kw ++ [a] ++ dstar.toList ++ locals) = (pos ++ kw) ++ (a :: (dstar.toList ++ locals)) := by
-        simp [List.append_assoc]
-      simp only [Option.toList_some] 
-      rw [this, List.getElem?_append_right (by simp; omega)]
-      simp [hp, hk]
-  · -- kwargs
-    cases dstar with
-    | none => simp [hd]
-    | some b =>
-      simp only [hd, Option.isSome_some, if_true]
-      cases star with
-      | none =>
-        simp only [hs, Option.isSome_none, Bool.false_eq_true, if_false, Option.toList_none, List.append_nil, Nat.add_zero,
-          Option.toList_some]
-        have : (pos ++ kw ++ [b] ++ locals) = (pos ++ kw) ++ (b :: locals) := by simp [List.append_assoc]
-        rw [this, List.getElem?_append_right (by simp; omega)]
-        simp [hp, hk]
-      | some a =>
-        simp only [hs, Option.isSome_some, if_true, Option.toList_some]
-        have : (pos ++ kw ++ [a] ++ [b] ++ locals) = (pos ++ kw ++ [a]) ++ (b :: locals) := by simp [List.append_assoc]
-        rw [this, List.getElem?_append_right (by simp; omega)]
-        have : c.argcount + c.kwonly + 1 - (c.argcount + (c.kwonly + 1)) = 0 := by omega
-        simp [hp, hk, this]
-
-/-- the pinned commit: `def f(a, b=1, *args, k=1, **kw)` is described as `(a, b=1, *k, **args)` -/
-def fCode : Code := ⟨2, 1, ["a", "b", "k", "args", "kw"], true, true, 1⟩
-example : (fromFunction false fCode 0).varargs = some "k" ∧ (fromFunction false fCode 0).kwargs = some "args" := by decide
-example : (fromFunction true fCode 0).varargs = some "args" ∧ (fromFunction true fCode 0).kwargs = some "kw" := by decide
-
-#print axioms fromFunction_spec
 end ZI.Method
